@@ -979,8 +979,25 @@ fn check_inner(line: &str, res: &str, t: &[&str], mut m: Vec<String>) -> Vec<Str
                             // the first error wins).  That is what the property allows, but only if the
                             // outcome is the fault-free one and is a syntax error other than end of input.
                             let strip = |v: &[String]| -> Vec<String> { v.iter().map(|s| strip_dat(s)).collect() };
+                            // (An end-of-input category error counts as determined when the fault-free run reports it at a
+                            // position before the end of the data: there it cannot come from the input ending — `#\x41\`
+                            // is "EOF while parsing a character constant" whatever follows the second backslash.)
+                            let before_end = |l: &str| -> bool {
+                                let f: Vec<&str> = l.split_whitespace().collect();
+                                if f.len() != 4 { return false; }
+                                match (f[2].parse::<usize>(), f[3].parse::<usize>()) {
+                                    (Ok(ln), Ok(col)) if ln >= 1 => {
+                                        let lines: Vec<&[u8]> = data.split(|b| *b == b'\n').collect();
+                                        if ln > lines.len() { return false; }
+                                        let off: usize = lines[..ln - 1].iter().map(|x| x.len() + 1).sum::<usize>() + col;
+                                        off < data.len()
+                                    }
+                                    _ => false,
+                                }
+                            };
+                            let last_raw = items.last().copied().unwrap_or("");
                             let determined = strip(&xi) == strip(&bi)
-                                && xi.last().map_or(false, |l| l.starts_with("err ") && !l.starts_with("err eof"));
+                                && xi.last().map_or(false, |l| l.starts_with("err ") && (!l.starts_with("err eof") || (bres.split(" | ").last() == Some(last_raw) && before_end(last_raw))));
                             if !determined {
                                 m.push("FAIL C06 a read error was swallowed: the reader failed but no I/O error was reported".into());
                             }
